@@ -3,6 +3,7 @@ From Coq Require Import List Arith ZArith Reals PrimFloat.
 Import ListNotations.
 From Flocq Require Import Core.
 From Yaqs Require Import Model.JumpPipeline Model.Grid Proofs.JumpPipelineP Proofs.GridP Gen.SmallGen Proofs.SmallGenP.
+From Yaqs Require Import Model.SolverClock Proofs.SolverClockP.
 
 (* number of steps computed by the grid construction, in binary64 round-to-nearest-even semantics (Flocq):
    round(fl(fl(k*dt)/dt)) = k, so the grid has k+1 points, for 1 <= k <= 2^40 and no underflow.
@@ -41,6 +42,14 @@ Print Assumptions C15_final_only_order2.
 Theorem C15_final_time_order2 : forall sched j, 1 <= j -> count_sym U (sample2 sched j) = j.
 Proof. exact order2_time. Qed.
 Print Assumptions C15_final_time_order2.
+
+(* the dense back-ends (MCWF loop, Lindblad integrator): entry c is evaluated on the state at grid point c, i.e. after c steps of dt;
+   with sampling off the single entry is evaluated at the last grid point.  n = number of grid points (k+1). *)
+Theorem C15_dense_backends_entries : forall sampling n, 2 <= n ->
+  mcwf_cols sampling n = lindblad_cols sampling n /\
+  lindblad_cols sampling n = if sampling then map (fun t => (t, t)) (seq 0 n) else [(0, n - 1)].
+Proof. exact dense_backends_entries. Qed.
+Print Assumptions C15_dense_backends_entries.
 
 Example C15_example : grid_len 0x1.999999999999ap-3%float 0x1.999999999999ap-4%float = 3%Z /\ cols2 (fun _ => false) false 2 = [(0, [Dh; J; U; Dh; J])].
 Proof. vm_compute. split; reflexivity. Qed.
